@@ -1120,3 +1120,13 @@ def _(p, ir, st_, ex, k1, k2, k3, ctx):
     if var is None:
         return None
     return (lambda: S.call_eqv(p, c, var)), {"at": path_str(s.path), "callee": f_proc.name(), "variant": kind}
+
+
+def apply_step_excl(prop, p, step, ctx):
+    """apply_step, unless the step falls into a class excluded by a recorded known finding"""
+    from .findings import excluded_step
+
+    fid = excluded_step(prop, step, p)
+    if fid:
+        return None, "excluded", {"op": step[0], "finding": fid}
+    return apply_step(p, step, ctx)
